@@ -6,7 +6,11 @@
 package verifhooks
 
 import (
+	"io/fs"
+	"reflect"
+
 	"github.com/corazawaf/coraza/v3/experimental/plugins/plugintypes"
+	"github.com/corazawaf/coraza/v3/internal/corazawaf"
 	"github.com/corazawaf/coraza/v3/internal/actions"
 	"github.com/corazawaf/coraza/v3/internal/memoize"
 	"github.com/corazawaf/coraza/v3/internal/operators"
@@ -34,4 +38,53 @@ func MemoizeKeys() []string {
 // transformations and variables.
 func Names() (directives, acts, ops, tfs, vars []string) {
 	return seclang.VerifNames(), actions.VerifNames(), operators.VerifNames(), transformations.VerifNames(), variables.VerifNames()
+}
+
+// ParseDump compiles the directives on a fresh WAF (Include resolved inside root when it is
+// not nil) and returns one description per compiled rule, in order.
+func ParseDump(root fs.FS, directives string) ([]string, error) {
+	waf := corazawaf.NewWAF()
+	p := seclang.NewParser(waf)
+	if root != nil {
+		p.SetRoot(root)
+	}
+	if err := p.FromString(directives); err != nil {
+		return nil, err
+	}
+	names := map[uintptr]string{}
+	for _, n := range transformations.VerifNames() {
+		if t, err := transformations.GetTransformation(n); err == nil {
+			names[reflect.ValueOf(t).Pointer()] = n
+		}
+	}
+	tfName := func(p uintptr) string {
+		if n, ok := names[p]; ok {
+			return n
+		}
+		return "?"
+	}
+	var out []string
+	for i := range waf.Rules.GetRules() {
+		out = append(out, waf.Rules.GetRules()[i].VerifDump(tfName))
+	}
+	return out, nil
+}
+
+// ParseActions runs the action-list scanner: (key, value, action type) per action.
+func ParseActions(actions string) ([][3]string, error) {
+	return seclang.VerifParseActions(actions)
+}
+
+// ParseActionOperator splits the argument of SecRule into targets, operator and actions.
+func ParseActionOperator(data string) (vars string, op string, actions string, err error) {
+	return seclang.VerifParseActionOperator(data)
+}
+
+// VariableInfo reports whether name is a known variable and whether it takes a key.
+func VariableInfo(name string) (known bool, canonical string, selectable bool) {
+	v, err := variables.Parse(name)
+	if err != nil {
+		return false, "", false
+	}
+	return true, v.Name(), v.CanBeSelected()
 }
